@@ -122,4 +122,6 @@ pub fn catch<T>(f: impl FnOnce() -> T) -> Result<T, String> {
 pub struct Opts {
     pub seed: u64,
     pub thorough: bool,
+    /// free-form sub-mode selected with --mode
+    pub mode: String,
 }
